@@ -466,7 +466,7 @@ func main() {
 	}
 
 	// ---- toy stream: boundary-dense lengths, several segmentations each
-	contents := run.N(80, 1600)
+	contents := run.N(80, 900)
 	for i := 0; i < contents; i++ {
 		cs := 1 + r.Intn(9)
 		b := 2 + r.Intn(4)
